@@ -363,7 +363,7 @@ struct Obs
     long capacity{-1}; // -1 when the container has none (ut_map, ut_set)
 };
 
-constexpr int MAXK = 6; // max key universe (keys are 1..nkeys)
+constexpr int MAXK = 8; // max key universe (keys are 1..nkeys)
 
 struct ScanEnt
 {
